@@ -58,3 +58,16 @@ Theorem C03_nonempty_or_error_from_text : forall cfg parse_float regex_ok ffun a
             ((exists a l, fst (eval_run ffun afun regex_match t doc st) = OOk (a :: l)) \/ (exists e, fst (eval_run ffun afun regex_match t doc st) = OErr e)).
 Proof. exact outcome_from_text. Qed.
 Print Assumptions C03_nonempty_or_error_from_text.
+
+(* the same for paths of steps and filters followed by registered filter functions (FiltAgg.v, OutcomeFun) *)
+From JP Require Import FiltFun FiltAgg FunParse.
+Theorem C03_function_outcome_from_text : forall cfg parse_float regex_ok ffun afun regex_match,
+  (forall f v w, small v -> ffun f v = Some w -> small w) ->
+  (forall f l w, Forall small l -> afun f l = Some w -> small w) ->
+  forall x r f fs doc st,
+  forallb fstep_ok (x :: r) = true -> forallb (fstep_okp parse_float regex_ok) (x :: r) = true ->
+  forallb fname_ok (f :: fs) = true -> forallb (fun_known cfg) (f :: fs) = true -> small doc -> ok st ->
+  exists t, parse_with cfg parse_float regex_ok jsonpath_grammar (fchain_fun_path (x :: r) (f :: fs)) = ParseOk t /\
+            ((exists a l, fst (eval_run ffun afun regex_match t doc st) = OOk (a :: l)) \/ (exists e, fst (eval_run ffun afun regex_match t doc st) = OErr e)).
+Proof. exact fun_outcome_from_text. Qed.
+Print Assumptions C03_function_outcome_from_text.
